@@ -332,29 +332,13 @@ func propC08(w *World, r *Report) {
 				continue
 			}
 			u := a.Instr.(*ssa.UnOp)
-			if refs := u.Referrers(); refs != nil {
-				for _, rf := range *refs {
-					ok := false
-					switch x := rf.(type) {
-					case *ssa.BinOp:
-						ok = x.Op == token.LSS || x.Op == token.GTR || x.Op == token.LEQ || x.Op == token.GEQ
-						if ok {
-							other := x.Y
-							if other == ssa.Value(u) {
-								other = x.X
-							}
-							ok = e.termOf(other).String() == T
-						}
-					case *ssa.Phi:
-						ok = true
-					case *ssa.Convert:
-						ok = onlyFeedsDebug(x)
-					case *ssa.DebugRef:
-						ok = true
-					}
-					r.Check(ok, "N4", fmt.Sprintf("%s: use of a loaded pixel by %T is the clamp (or the debug log)", fn.Name(), rf), w.InstrPos(rf), rf.String())
-				}
+			bad := clampOnlyUses(u, func(v ssa.Value) bool { return e.termOf(v).String() == T }, 0)
+			pos := w.InstrPos(u)
+			detail := "compared with temp-thresh, merged with it, or handed to a clamp helper / the debug log only"
+			if bad != nil {
+				pos, detail = w.InstrPos(bad), "raw pixel value used by "+bad.String()
 			}
+			r.Check(bad == nil, "N4", fmt.Sprintf("%s: the raw value of pixel read at %s is used only by the temp-thresh clamp", fn.Name(), w.InstrPos(u)), pos, detail)
 		}
 	}
 	// N5
@@ -889,4 +873,71 @@ func sameFrame(arg ssa.Value, cur ssa.Value, copyCall *ssa.Call) bool {
 		return true
 	}
 	return false
+}
+
+// clampOnlyUses returns an instruction that uses the raw pixel value v for anything but the clamp against the
+// threshold: comparisons with the threshold, phis merging it with the threshold, pure clamp helpers (checked
+// recursively on their parameter) and the debug tracker are allowed.
+func clampOnlyUses(v ssa.Value, isT func(ssa.Value) bool, depth int) ssa.Instruction {
+	refs := v.Referrers()
+	if refs == nil || depth > 3 {
+		return nil
+	}
+	for _, rf := range *refs {
+		switch x := rf.(type) {
+		case *ssa.DebugRef:
+		case *ssa.BinOp:
+			cmp := x.Op == token.LSS || x.Op == token.GTR || x.Op == token.LEQ || x.Op == token.GEQ
+			other := x.Y
+			if other == v {
+				other = x.X
+			}
+			if !(cmp && isT(other)) {
+				return x
+			}
+		case *ssa.Phi:
+			// merged with the threshold (or with itself through the clamp): the phi is the clamped value
+			okPhi := false
+			for _, ed := range x.Edges {
+				if isT(ed) {
+					okPhi = true
+				}
+			}
+			if !okPhi {
+				return x
+			}
+		case *ssa.Convert:
+			if !onlyFeedsDebug(x) {
+				return x
+			}
+		case *ssa.Call:
+			callee := x.Call.StaticCallee()
+			if callee == nil || !isPureHelper(callee, 0) {
+				if strings.Contains(calleeName(x), "debugTracker.") {
+					continue
+				}
+				return x
+			}
+			// the helper must be a clamp of this argument against the threshold argument
+			pi, ti := -1, -1
+			for i, a := range x.Call.Args {
+				if a == v {
+					pi = i
+				} else if isT(a) {
+					ti = i
+				}
+			}
+			if pi < 0 || ti < 0 {
+				return x
+			}
+			if bad := clampOnlyUses(callee.Params[pi], func(q ssa.Value) bool { return q == ssa.Value(callee.Params[ti]) }, depth+1); bad != nil {
+				return bad
+			}
+		case *ssa.Return:
+			// returned from a clamp helper: fine, the caller's term is checked separately
+		default:
+			return rf
+		}
+	}
+	return nil
 }
